@@ -25,6 +25,10 @@ pub struct JoinHandle<T> {
 pub struct Thread {
     id: ThreadId,
     name: Option<String>,
+
+    /// Object on which `park` and `unpark` of this thread branch, so that they
+    /// are scheduling points and dependent operations for the exploration.
+    park: rt::Notify,
 }
 
 impl Thread {
@@ -47,7 +51,11 @@ impl Thread {
     /// used as a more CPU-efficient implementation of a spinlock.
     ///
     /// See the [park documentation][park] for more details.
+    #[track_caller]
     pub fn unpark(&self) {
+        // Whether a `park` of the target comes before or after this call
+        // matters: let the exploration reorder them.
+        self.park.branch(location!());
         rt::execution(|execution| execution.threads.unpark(self.id.id));
     }
 }
@@ -90,11 +98,12 @@ static CURRENT_THREAD_KEY: LocalKey<Thread> = LocalKey {
     _p: PhantomData,
 };
 
-fn init_current(execution: &mut Execution, name: Option<String>) -> Thread {
+fn init_current(execution: &mut Execution, name: Option<String>, park: rt::Notify) -> Thread {
     let id = execution.threads.active_id();
     let thread = Thread {
         id: ThreadId { id },
         name,
+        park,
     };
 
     execution
@@ -106,16 +115,21 @@ fn init_current(execution: &mut Execution, name: Option<String>) -> Thread {
 
 /// Returns a handle to the current thread.
 pub fn current() -> Thread {
-    rt::execution(|execution| {
-        let thread = execution.threads.local(&CURRENT_THREAD_KEY);
-        if let Some(thread) = thread {
-            thread.unwrap().clone()
-        } else {
-            // Lazily initialize the current() Thread. This is done to help
-            // handle the initial (unnamed) bootstrap thread.
-            init_current(execution, None)
-        }
-    })
+    let thread = rt::execution(|execution| {
+        execution
+            .threads
+            .local(&CURRENT_THREAD_KEY)
+            .map(|thread| thread.unwrap().clone())
+    });
+
+    if let Some(thread) = thread {
+        return thread;
+    }
+
+    // Lazily initialize the current() Thread. This is done to help
+    // handle the initial (unnamed) bootstrap thread.
+    let park = rt::Notify::new(false, false);
+    rt::execution(|execution| init_current(execution, None, park))
 }
 
 /// Mock implementation of `std::thread::spawn`.
@@ -140,7 +154,12 @@ where
 /// forever, and callers should be prepared for this possibility.
 #[track_caller]
 pub fn park() {
-    rt::park(location!());
+    let location = location!();
+
+    // Whether an `unpark` of this thread comes before or after this call
+    // matters: let the exploration reorder them.
+    current().park.branch(location);
+    rt::park(location);
 }
 
 fn spawn_internal<F, T>(
@@ -156,13 +175,14 @@ where
 {
     let result = Arc::new(Mutex::new(None));
     let notify = rt::Notify::new(true, false);
+    let park = rt::Notify::new(false, false);
 
     let id = {
         let name = name.clone();
         let result = result.clone();
         rt::spawn(stack_size, move || {
             rt::execution(|execution| {
-                init_current(execution, name);
+                init_current(execution, name, park);
             });
 
             *result.lock().unwrap() = Some(Ok(f()));
@@ -176,6 +196,7 @@ where
         thread: Thread {
             id: ThreadId { id },
             name,
+            park,
         },
     }
 }
